@@ -30,7 +30,7 @@ func init() {
 		ID:    "C13",
 		Level: "model_checking",
 		Rule: "stateless model checking of the real implementation under a cooperative scheduler: 2 goroutines (thorough: also 3) sanitise different short inputs on ONE finished policy built with three overlapping element patterns carrying attribute and style rules, global / element / pattern style rules, a custom URL check, a src rewriter and link options; " +
-			"scheduling points = every statement of package bluemonday and function entries / loop heads of package css (overlay); depth-first search over choice sequences with iterative preemption bounding (quick: c<=2 on two input pairs and c<=1 on four more; thorough: c<=2 on all six pairs, three goroutines at c<=2, two calls per goroutine at c<=2, c<=3 and map orders combined with c<=2 on a pair of very short inputs); executions always run to completion; " +
+			"scheduling points = every statement of package bluemonday and function entries / loop heads of package css (overlay); depth-first search over choice sequences with iterative preemption bounding (quick: c<=2 on two input pairs and c<=1 on four more; thorough: c<=2 on all six pairs, three goroutines at c<=1, c<=3 and map orders on a pair of very short inputs, two calls per goroutine at c<=2, and last three goroutines at c<=2 as far as the budget allows); executions always run to completion; " +
 			"in a second exploration every execution of a `range` over a map is a choice among all permutations of its keys (deviation bound 2 from sorted order, alone and combined with <=1 preemption). " +
 			"Before anything else, in the fresh process: after a warm-up of calls on the shared policy, fresh instances of two other policies must reproduce the probe outputs they gave before (results do not depend on earlier calls on another policy). Oracle per execution: every call returns exactly the sequential result, repeated calls agree, and sanitising does not change later behaviour: the deep snapshot of the policy object graph is compared before and after every execution (package-level variables every 32nd) and, if it changed, the used policy must still agree with a fresh one on 11 probe documents (an object change without behaviour change is noted in the evidence, not reported). A recorded schedule is replayed twice and must reproduce the same point trace. " +
 			"Separately (outside the family, because a cooperative scheduler's hand-offs are happens-before edges): the same bodies run free under Go's race detector, 4 goroutines x 2000 iterations. " +
@@ -575,16 +575,19 @@ func runC13(c *run.Ctx) {
 			exploreC13(c, mk, ins, 1, true, false, 2, 0, sq, fmt.Sprintf("2g-pair%d-c2", pi))
 		}
 		if !c.Quick() {
-			exploreC13(c, mk, []string{c13Inputs[0], c13Inputs[1], c13Inputs[2]}, 1, true, false, 2, 0, []string{seq[0], seq[1], seq[2]}, "3g-c2")
-			exploreC13(c, mk, []string{c13Inputs[0], c13Inputs[3]}, 2, true, false, 2, 0, []string{seq[0], seq[3]}, "2g-2calls-c2")
+			three := []string{c13Inputs[0], c13Inputs[1], c13Inputs[2]}
+			tseq := []string{seq[0], seq[1], seq[2]}
+			exploreC13(c, mk, three, 1, true, false, 1, 0, tseq, "3g-c1")
 			// three preemptions on two very short inputs that still go through pattern matching and the style merge
 			short := []string{`<my-y style="width: 7px">`, `<my-xy id=a style="height: 2px">`}
 			sseq := make([]string, len(short))
 			for i, in := range short {
 				sseq[i], _ = San(mk(), in)
 			}
+			exploreC13(c, mk, short, 1, true, true, 1, 2, sseq, "2g-short-maporder-c1")
 			exploreC13(c, mk, short, 1, true, false, 3, 0, sseq, "2g-short-c3")
-			exploreC13(c, mk, short, 1, true, true, 2, 2, sseq, "2g-short-maporder-c2")
+			exploreC13(c, mk, []string{c13Inputs[0], c13Inputs[3]}, 2, true, false, 2, 0, []string{seq[0], seq[3]}, "2g-2calls-c2")
+			exploreC13(c, mk, three, 1, true, false, 2, 0, tseq, "3g-c2") // largest, last: a budget cut-off ends here
 		}
 	}
 }
